@@ -51,6 +51,7 @@ const (
 	CNetIP
 	CNamedBytes
 	CByteArray
+	CNil
 	NumClasses
 )
 
@@ -60,7 +61,7 @@ var ClassName = []string{
 	"nullstring-valid", "nullstring-invalid", "bytes", "time", "slice0", "slice1", "slice2",
 	"slice3-int", "array2", "iface-slice2", "nested-slice", "expr-with-args", "driver-valuer",
 	"driver-valuer-slice", "gorm-valuer", "subquery", "subquery-raw",
-	"json-rawmessage", "net-ip", "named-byte-slice", "byte-array",
+	"json-rawmessage", "net-ip", "named-byte-slice", "byte-array", "untyped-nil",
 }
 
 // StringClasses are the classes whose Go value is a string.
@@ -76,7 +77,7 @@ var AnyClasses = func() []Class {
 }()
 
 // PathClasses: one representative per code path (used for 2-deviation runs).
-var PathClasses = []Class{CStr, CQMark, CInt, CNilPtr, CNullInvalid, CBytes, CSlice0, CSlice2, CNested, CExpr, CDValuerSlice, CGValuer, CSub, CSubRaw, CNamedBytes, CByteArray}
+var PathClasses = []Class{CStr, CQMark, CInt, CNilPtr, CNullInvalid, CBytes, CSlice0, CSlice2, CNested, CExpr, CDValuerSlice, CGValuer, CSub, CSubRaw, CNamedBytes, CByteArray, CNil}
 
 // NB is a named byte-slice type that is neither []byte nor a driver.Valuer.
 type NB []byte
@@ -166,6 +167,9 @@ func Make(c Class, id int, base *gorm.DB) Val {
 	case CNilPtr:
 		var p *string
 		v.V, v.Alts, v.ZeroLike = p, [][]interface{}{{p}, {}}, true
+	case CNil:
+		// untyped nil (a nil interface): bound as NULL, or rendered IS NULL
+		v.V, v.Alts, v.ZeroLike = nil, [][]interface{}{{nil}, {}}, true
 	case CNullValid:
 		ns := sql.NullString{String: strBody(CQMark, id, 0), Valid: true}
 		v.V, v.Alts, v.Markers = ns, one(ns), []string{tok(id, 0)}
